@@ -185,7 +185,8 @@ def _supporting_facts(run, prog, tier):
     from . import C15
     sub = report.Run("C15", tier, run.seed, quiet=True)
     C15.check(sub, prog, tier)
-    u1 = [o for o in sub.obs if o.rule == "U1"]
+    u1 = [o for o in sub.obs if o.rule == "U1" and ("append-targets-open-collector" in o.construct or "only-queue_send-appends" in o.construct
+                                                    or "done-before-flush" in o.construct or "new-only-if-none-or-done" in o.construct)]
     facts["append-only-while-open"] = bool(u1) and all(o.ok for o in u1)
     run.ob("E1", "sd.SendCollector.append:only-while-open", facts["append-only-while-open"], loc(prog.func("sd.SendCollector.append")),
            "supporting fact (C15-U1): entries are appended only to a collector that is open, so append() cannot raise on the receive path")
